@@ -290,6 +290,9 @@ func cmdCheck(args []string) int {
 		fmt.Fprintln(os.Stderr, "error:", err)
 		return 2
 	}
+	if data, err := os.ReadFile(filepath.Join(*verif, "baseline_locals.json")); err == nil {
+		json.Unmarshal(data, &e.baseLocals)
+	}
 	res := &runResult{}
 	// lemmas
 	lemmaAx := map[string]axiomTerm{}
@@ -576,6 +579,16 @@ func cmdCheck(args []string) int {
 		base[ps.ID] = names
 		data, _ := json.MarshalIndent(base, "", " ")
 		writeFileAtomic(filepath.Join(*verif, "baseline_obligations.json"), data)
+		// the locals of the functions verified in this run (rename tolerance, see exec.go)
+		all := map[string][]localEntry{}
+		if data, err := os.ReadFile(filepath.Join(*verif, "baseline_locals.json")); err == nil {
+			json.Unmarshal(data, &all)
+		}
+		for k, v := range e.curLocals {
+			all[k] = v
+		}
+		ldata, _ := json.MarshalIndent(all, "", " ")
+		writeFileAtomic(filepath.Join(*verif, "baseline_locals.json"), ldata)
 	}
 	// thorough tier extras (bounded, labelled as such, never counted in obligations/discharged):
 	//  (a) conformance runs of the assumed library contracts this property rests on,
